@@ -151,7 +151,7 @@ def check(model: Model, run: Run) -> None:
         run.check(ok, msgs.qualname, '%s budget = msg_size - len(%s); message also holds %s' % (meth, '+'.join(sorted(counted)), sorted(in_msg)), msgs.loc(c), 'every buffer written into the same UPDATE (%s) must be subtracted from the room given to %s' % (sorted(in_msg), meth))
 
     # ------------------------------------------------------------------ R2 predictor = writer
-    run.rule('C09.R2', 'length predictors agree with the writers on the extended-length switch: payload > 255 means a 4-byte attribute header in _attr_len, _attribute_header, Attribute._attribute and Attribute._len', floor=4)
+    run.rule('C09.R2', 'length predictors agree with the writers on the extended-length switch: payload > 255 means a 4-byte attribute header in _attr_len, _attribute_header, Attribute._attribute and Attribute._len', floor=3)
     al = model.func(MPC + '._attr_len')
     ah = model.func(MPC + '._attribute_header')
     run.analysed(al)
@@ -245,7 +245,7 @@ def check(model: Model, run: Run) -> None:
     run.check("pack('!H', len(data)) + data" in norm(pf.node), pf.qualname, '2-byte length prefix', pf.loc(), 'withdrawn and attribute sections carry a 2-octet length')
 
     # ------------------------------------------------------------------ R3 guarded growth
-    run.rule('C09.R3', 'a buffer that flows into a yielded message grows only in the satisfied branch of a `current + new <= room` comparison (or the failing branch of `> maximum`)', floor=4)
+    run.rule('C09.R3', 'a buffer that flows into a yielded message grows only in the satisfied branch of a `current + new <= room` comparison (or the failing branch of `> maximum`)', floor=2)
     _r3_growth(model, run, msgs, room, roles)
     for nm in ('packed_reach_attributes', 'packed_unreach_attributes'):
         f = model.func(MPC + '.' + nm)
@@ -253,14 +253,14 @@ def check(model: Model, run: Run) -> None:
         _r3_growth(model, run, f, f.node.args.args[2].arg, Roles(model, f))
 
     # ------------------------------------------------------------------ R4 nothing dropped at a split
-    run.rule('C09.R4', 'when a message is emitted because the next prefix does not fit, that prefix starts the next buffer (announced = bytes(packed) / payload = header + packed_nlri): nothing is dropped at a split', floor=4)
+    run.rule('C09.R4', 'when a message is emitted because the next prefix does not fit, that prefix starts the next buffer (announced = bytes(packed) / payload = header + packed_nlri): nothing is dropped at a split', floor=3)
     _r4_split(model, run, msgs, roles)
     for nm in ('packed_reach_attributes', 'packed_unreach_attributes'):
         f = model.func(MPC + '.' + nm)
         _r4_split(model, run, f, Roles(model, f))
 
     # ------------------------------------------------------------------ R5 no room => no message
-    run.rule('C09.R5', 'when the attributes leave no room nothing is yielded: the negative/zero-room tests return before the first yield, and a first prefix that does not fit returns (or raises) instead of yielding', floor=4)
+    run.rule('C09.R5', 'when the attributes leave no room nothing is yielded: the negative/zero-room tests return before the first yield, and a first prefix that does not fit returns (or raises) instead of yielding', floor=3)
     cfg = CFG(msgs.node)
     ys = sorted((y for y in walk_no_nested(msgs.node) if isinstance(y, ast.Yield)), key=lambda y: y.lineno)
     after_budget = [y for y in ys if y.lineno > budget.lineno]
